@@ -65,6 +65,10 @@ func doReadOnly(p mq.ControlPacket, op int) {
 const c11Encodings = 16
 
 func checkC11(c caseC11) (frame []byte, sig, msg string) {
+	guard.SetCurrent(func() []byte {
+		return mustJSON(vf.Failure{Property: "C11", Kind: "hang", Case: mustJSON(c), Signature: "hang", Message: "a library call made for this case did not return"})
+	})
+	defer guard.SetCurrent(nil)
 	m, err := unpackModel(c.ModelGob)
 	if err != nil {
 		return nil, "harness", "harness: " + err.Error()
